@@ -3,13 +3,482 @@ C01 (hand-written code) — transcriptions of the loop-carrying / index-computin
 read-fonts/src/tables/bitmap.rs / cblc.rs / ebdt.rs / sbix.rs (BitmapSize::location, index subtable formats 1-5, bitmap_data, glyph_data).
 
 Every definition cites the Rust function it transcribes (file + fn) and keeps its checked / saturating /
-wrapping arithmetic and its error returns; `Out.trap` / `none`-as-panic results mark what would be a panic of
+wrapping arithmetic and its error returns; `Res.trap` results mark what would be a panic of
 the overflow-checked profile, and Props/C01HandBitmap.lean shows they are never produced.  Tied to the real code
 by harness group `bitmap.model` (driver commands `hb.*`, Drv/C01HandBitmap.lean).
+
+Conventions.  Tables are byte lists (`d`, `ld`, `sd`, `img`), every scalar is read big-endian with
+`HandRead.readAt` / `HandRead.beAt`; `usize` is 64 bit (`HandRead.MAXU`).  The plain `usize` operators of the
+Rust (`a + b`, `a * b`, `a - b`, `v[i]`) are `usizeAdd` / `usizeMul` / `usizeSub` / `index0` / `elseTrap`,
+which produce `Res.trap` where the strict profile panics; `checked_*`, `saturating_*`, `<[T]>::get` and
+`FontData::slice` are the `HandRead` primitives.  The generated readers that size the arrays
+(`IndexSubtableList::read`, `IndexSubtable{1..5}::read`, `Strike::read`, `GlyphData::read`) are transcribed
+statement by statement over the `Cur` cursor (`advance`, `advance_by`, `read`, `finish`); the generated
+field getters (`read_at(range.start).unwrap()` / `read_array(range).unwrap()` on the ranges the reader
+validated) are read with `beAt` — their unwraps are the subject of `C01.generated_getters_safe`.
+`core::slice::binary_search_by` is `Layout.binarySearchBy` (the rustc 1.95 loop, shared with C16 / C08).
 -/
 import FontVerif.Model.ReadIter
 import FontVerif.Model.HandRead
+import FontVerif.Model.Layout
 namespace FontVerif.HandBitmap
-open FontVerif FontVerif.ReadIter FontVerif.HandRead
+open FontVerif FontVerif.HandRead
+
+/-! ## results -/
+
+/-- the `ReadError` values these functions return -/
+inductive BErr where
+  /-- `ReadError::OutOfBounds` -/
+  | oob
+  /-- `ReadError::InvalidArrayLen` -/
+  | invalidArrayLen
+  /-- `ReadError::NullOffset` -/
+  | nullOffset
+  /-- `ReadError::InvalidFormat(f)` -/
+  | invalidFormat (f : Nat)
+  /-- `ReadError::InvalidCollectionIndex(gid)` -/
+  | invalidIndex (g : Nat)
+  /-- `ReadError::MalformedData("expected metrics from location table")` -/
+  | noMetrics
+  /-- `ReadError::MalformedData("unexpected bitmap data format")` -/
+  | badFormat
+  deriving DecidableEq, Repr
+
+/-- `Result<α, ReadError>` plus the panic of the overflow-checked profile -/
+inductive Res (α : Type) where
+  | ok (a : α)
+  | err (e : BErr)
+  /-- arithmetic overflow / underflow, index out of bounds -/
+  | trap
+  deriving DecidableEq, Repr
+
+/-- `?` -/
+def Res.bind {α β : Type} (x : Res α) (f : α → Res β) : Res β :=
+  match x with
+  | .ok a => f a
+  | .err e => .err e
+  | .trap => .trap
+
+instance : Monad Res where
+  pure := .ok
+  bind := Res.bind
+
+/-- `opt.ok_or(e)?` -/
+def okOr {α : Type} (o : Option α) (e : BErr) : Res α :=
+  match o with
+  | some a => .ok a
+  | none => .err e
+
+/-- `slice[i]` with `slice.get(i) = o`: a panic when out of range -/
+def elseTrap {α : Type} (o : Option α) : Res α :=
+  match o with
+  | some a => .ok a
+  | none => .trap
+
+def ofExcept {α : Type} (x : Except BErr α) : Res α :=
+  match x with
+  | .ok a => .ok a
+  | .error e => .err e
+
+def ofRErr : RErr → BErr
+  | .oob => .oob
+  | .invalidArrayLen => .invalidArrayLen
+
+/-- `a + b` on `usize` -/
+def usizeAdd (a b : Nat) : Res Nat := if a + b ≤ MAXU then .ok (a + b) else .trap
+/-- `a * b` on `usize` -/
+def usizeMul (a b : Nat) : Res Nat := if a * b ≤ MAXU then .ok (a * b) else .trap
+/-- `a - b` on `usize` -/
+def usizeSub (a b : Nat) : Res Nat := if b ≤ a then .ok (a - b) else .trap
+
+/-- `(lo..=hi).contains(&g)` -/
+def rangeContains (lo hi g : Nat) : Bool := decide (lo ≤ g ∧ g ≤ hi)
+
+/-- `<[BigEndian<T>]>::get(ix)` on the array of `count` scalars of `elem` bytes at byte `pos` of `sd`
+(`stride` bytes apart: records with several fields) -/
+def arrGet (sd : List Nat) (pos stride elem count ix : Nat) : Option Nat :=
+  if ix < count then some (beAt sd (pos + stride * ix) elem) else none
+
+/-! ## `BitmapSize::index_subtable_list`, `IndexSubtableList::read`, `IndexSubtable::read_with_args` -/
+
+/-- the fields of a `BitmapSize` record `location` uses -/
+structure Size where
+  listOffset : Nat
+  listSize : Nat
+  numSubtables : Nat
+  startGlyph : Nat
+  endGlyph : Nat
+  bitDepth : Nat
+  deriving DecidableEq, Repr
+
+/-- bitmap.rs `BitmapSize::index_subtable_list(offset_data)`:
+`start.checked_add(size).ok_or(OutOfBounds)?`, `offset_data.slice(start..end).ok_or(OutOfBounds)?`, then the
+generated `IndexSubtableList::read(data, number_of_index_subtables)`:
+`(n as usize).checked_mul(IndexSubtableRecord::RAW_BYTE_LEN = 8).ok_or(OutOfBounds)?`, `cursor.advance_by`,
+`cursor.finish`.  Returns the list's data (= its `offset_data()`). -/
+def indexSubtableList (d : List Nat) (off size n : Nat) : Except BErr (List Nat) :=
+  match checkedAdd off size with
+  | none => .error .oob
+  | some e =>
+    match sliceExcl d off e with
+    | none => .error .oob
+    | some _ =>
+      let ld := (d.drop off).take size
+      match checkedMul n 8 with
+      | none => .error .oob
+      | some bl => if (Cur.init.advanceBy bl).finish ld then .ok ld else .error .oob
+
+/-- `IndexSubtableList::index_subtable_records()`: the `n` records
+`(first_glyph_index, last_glyph_index, index_subtable_offset)` at the start of the list data -/
+def records (ld : List Nat) (n : Nat) : List (Nat × Nat × Nat) :=
+  (List.range n).map (fun i => (beAt ld (8 * i) 2, beAt ld (8 * i + 2) 2, beAt ld (8 * i + 4) 4))
+
+/-- a successfully read `IndexSubtable`: the variant and the element count of its array
+(`sbit_offsets().len()` / `glyph_array().len()`) -/
+inductive Sub where
+  | f1 (count : Nat)
+  | f2
+  | f3 (count : Nat)
+  | f4 (count : Nat)
+  | f5 (count : Nat)
+  deriving DecidableEq, Repr
+
+/-- `cursor.advance_by(byte_len); cursor.finish(..)` after `fixed` bytes of header -/
+def finishAfter (sd : List Nat) (fixed byteLen : Nat) : Bool := ((Cur.mk fixed).advanceBy byteLen).finish sd
+
+/-- bitmap.rs `<IndexSubtable as FontReadWithArgs>::read_with_args(data, &(last, first))` with the generated
+readers it dispatches to.  `format = data.read_at(0)?`;
+* 1 / 3: three `advance`s (2 + 2 + 4 bytes), `transforms::subtract_add_two(last, first)`
+  (`last.saturating_sub(first).saturating_add(2)`) `.checked_mul(4 / 2).ok_or(OutOfBounds)?`, `advance_by`, `finish`;
+* 2: `advance`s of 2 + 2 + 4 + 4 bytes and the 8 bytes of `BigGlyphMetrics`, `finish`;
+* 4: 2 + 2 + 4 bytes, `num_glyphs: u32 = cursor.read()?`, `transforms::add(num_glyphs, 1)` (saturating)
+  `.checked_mul(4)`, `advance_by`, `finish`;
+* 5: 2 + 2 + 4 + 4 + 8 bytes, `num_glyphs = cursor.read()?`, `(num_glyphs as usize).checked_mul(2)`, …;
+* other: `InvalidFormat(other)`. -/
+def readSubtable (sd : List Nat) (last first : Nat) : Except BErr Sub :=
+  match readAt sd 0 2 with
+  | none => .error .oob
+  | some f =>
+    if f = 1 then
+      let count := satAdd (last - first) 2
+      match checkedMul count 4 with
+      | none => .error .oob
+      | some bl => if finishAfter sd 8 bl then .ok (.f1 count) else .error .oob
+    else if f = 2 then
+      if finishAfter sd 12 8 then .ok .f2 else .error .oob
+    else if f = 3 then
+      let count := satAdd (last - first) 2
+      match checkedMul count 2 with
+      | none => .error .oob
+      | some bl => if finishAfter sd 8 bl then .ok (.f3 count) else .error .oob
+    else if f = 4 then
+      match readAt sd 8 4 with
+      | none => .error .oob
+      | some n =>
+        let count := satAdd n 1
+        match checkedMul count 4 with
+        | none => .error .oob
+        | some bl => if finishAfter sd 12 bl then .ok (.f4 count) else .error .oob
+    else if f = 5 then
+      match readAt sd 20 4 with
+      | none => .error .oob
+      | some n =>
+        match checkedMul n 2 with
+        | none => .error .oob
+        | some bl => if finishAfter sd 24 bl then .ok (.f5 n) else .error .oob
+    else .error (.invalidFormat f)
+
+/-- `IndexSubtableRecord::index_subtable(data)` = `Offset32::resolve_with_args` (offset.rs):
+`non_null().ok_or(NullOffset)`, `data.split_off(off).ok_or(OutOfBounds)`, `IndexSubtable::read_with_args`.
+Returns the subtable's data and variant. -/
+def resolveSubtable (ld : List Nat) (off last first : Nat) : Except BErr (List Nat × Sub) :=
+  if off = 0 then .error .nullOffset
+  else
+    match splitOff ld off with
+    | none => .error .oob
+    | some _ =>
+      match readSubtable (ld.drop off) last first with
+      | .error e => .error e
+      | .ok sub => .ok (ld.drop off, sub)
+
+/-- bitmap.rs `IndexSubtable::index_format` / `image_format` / `image_data_offset` (every variant has them at
+bytes 0, 2, 4), `offset_data().len()`, `min_byte_range().end` -/
+def subIndexFormat (sd : List Nat) : Nat := beAt sd 0 2
+def subImageFormat (sd : List Nat) : Nat := beAt sd 2 2
+def subImageDataOffset (sd : List Nat) : Nat := beAt sd 4 4
+def subMinEnd : Sub → Nat
+  | .f1 c => 8 + c * 4
+  | .f2 => 20
+  | .f3 c => 8 + c * 2
+  | .f4 c => 12 + c * 4
+  | .f5 c => 24 + c * 2
+
+/-! ## `BitmapSize::location` -/
+
+/-- bitmap.rs `BitmapLocation` (`metrics`: the 8 bytes of the `BigGlyphMetrics`) -/
+structure Loc where
+  format : Nat
+  dataOffset : Nat
+  dataSize : Nat
+  bitDepth : Nat
+  metrics : Option (List Nat)
+  deriving DecidableEq, Repr
+
+/-- bitmap.rs `BitmapLocation::is_empty` -/
+def Loc.isEmpty (l : Loc) : Bool := l.dataSize == 0
+
+/-- `st.big_metrics()`: the slice of `big_metrics_byte_len / 8 = 1` records at byte `pos` -/
+def bigMetrics (sd : List Nat) (pos : Nat) : List (List Nat) := [(sd.drop pos).take 8]
+
+/-- `slice[0]` -/
+def index0 {α : Type} : List α → Res α
+  | [] => .trap
+  | a :: _ => .ok a
+
+/-- the `match &subtable { … }` of `BitmapSize::location` for one record whose range holds `glyph_id`;
+`glyphIx = glyph_id - first_glyph_index`.
+* Format 1 / 3: `start = image_data_offset as usize + sbit_offsets.get(glyph_ix).ok_or(OutOfBounds)? as usize`,
+  `end = … .get(glyph_ix + 1) …`; `end < start` → `OutOfBounds`; `data_size = end - start`.
+* Format 2: `data_offset = image_data_offset as usize + glyph_ix * image_size as usize`, `metrics = big_metrics()[0]`.
+* Format 4: `array.binary_search_by(|x| x.glyph_id().cmp(&glyph_id))` else `InvalidCollectionIndex(gid)`;
+  `start = array[ix].sbit_offset()`, `end = array.get(ix + 1).ok_or(OutOfBounds)?.sbit_offset()` (the image data
+  offset is NOT added here), `end < start` → `OutOfBounds`.
+* Format 5: the same search over the glyph id array, `data_offset = image_data_offset + ix * image_size`. -/
+def subLocation (sd : List Nat) (sub : Sub) (gid glyphIx : Nat) (loc0 : Loc) : Res Loc :=
+  let imf := subImageFormat sd
+  let ido := subImageDataOffset sd
+  match sub with
+  | .f1 count => do
+    let o0 ← okOr (arrGet sd 8 4 4 count glyphIx) .oob
+    let start ← usizeAdd ido o0
+    let ix1 ← usizeAdd glyphIx 1
+    let o1 ← okOr (arrGet sd 8 4 4 count ix1) .oob
+    let end_ ← usizeAdd ido o1
+    if end_ < start then .err .oob
+    else do
+      let size ← usizeSub end_ start
+      .ok { loc0 with format := imf, dataOffset := start, dataSize := size }
+  | .f2 => do
+    let dataSize := beAt sd 8 4
+    let m ← usizeMul glyphIx dataSize
+    let off ← usizeAdd ido m
+    let bm ← index0 (bigMetrics sd 12)
+    .ok { loc0 with format := imf, dataOffset := off, dataSize := dataSize, metrics := some bm }
+  | .f3 count => do
+    let o0 ← okOr (arrGet sd 8 2 2 count glyphIx) .oob
+    let start ← usizeAdd ido o0
+    let ix1 ← usizeAdd glyphIx 1
+    let o1 ← okOr (arrGet sd 8 2 2 count ix1) .oob
+    let end_ ← usizeAdd ido o1
+    if end_ < start then .err .oob
+    else do
+      let size ← usizeSub end_ start
+      .ok { loc0 with format := imf, dataOffset := start, dataSize := size }
+  | .f4 count =>
+    match Layout.binarySearchBy count (fun i => Layout.natCmp (beAt sd (12 + 4 * i) 2) gid) with
+    | .err _ => .err (.invalidIndex gid)
+    | .ok ix => do
+      let start ← elseTrap (arrGet sd 14 4 2 count ix)
+      let ix1 ← usizeAdd ix 1
+      let end_ ← okOr (arrGet sd 14 4 2 count ix1) .oob
+      if end_ < start then .err .oob
+      else do
+        let size ← usizeSub end_ start
+        .ok { loc0 with format := imf, dataOffset := start, dataSize := size }
+  | .f5 count =>
+    match Layout.binarySearchBy count (fun i => Layout.natCmp (beAt sd (24 + 2 * i) 2) gid) with
+    | .err _ => .err (.invalidIndex gid)
+    | .ok ix => do
+      let dataSize := beAt sd 8 4
+      let m ← usizeMul ix dataSize
+      let off ← usizeAdd ido m
+      let bm ← index0 (bigMetrics sd 12)
+      .ok { loc0 with format := imf, dataOffset := off, dataSize := dataSize, metrics := some bm }
+
+/-- the `for record in subtable_list.index_subtable_records()` loop of `BitmapSize::location`; the second
+component counts the trips.  Per record: `record.index_subtable(list.offset_data())?` (BEFORE the range test: a
+broken subtable in front of the wanted one fails the lookup), `continue` unless
+`(first..=last).contains(&glyph_id)`, `glyph_ix = glyph_id as usize - first as usize`, the format match,
+`return Ok(location)`; after the loop `Err(OutOfBounds)`. -/
+def locLoop (ld : List Nat) (gid : Nat) (loc0 : Loc) : List (Nat × Nat × Nat) → Res Loc × Nat
+  | [] => (.err .oob, 0)
+  | (first, last, off) :: rest =>
+    match resolveSubtable ld off last first with
+    | .error e => (.err e, 1)
+    | .ok (sd, sub) =>
+      if rangeContains first last gid then
+        ((usizeSub gid first).bind (fun ix => subLocation sd sub gid ix loc0), 1)
+      else
+        let r := locLoop ld gid loc0 rest
+        (r.1, r.2 + 1)
+
+/-- bitmap.rs `BitmapSize::location(offset_data, glyph_id)`: the size's own range test (`OutOfBounds`),
+`index_subtable_list(offset_data)?`, `location = { bit_depth, ..default }`, the record loop. -/
+def locationT (d : List Nat) (sz : Size) (gid : Nat) : Res Loc × Nat :=
+  if rangeContains sz.startGlyph sz.endGlyph gid then
+    match indexSubtableList d sz.listOffset sz.listSize sz.numSubtables with
+    | .error e => (.err e, 0)
+    | .ok ld =>
+      locLoop ld gid { format := 0, dataOffset := 0, dataSize := 0, bitDepth := sz.bitDepth, metrics := none }
+        (records ld sz.numSubtables)
+  else (.err .oob, 0)
+
+def location (d : List Nat) (sz : Size) (gid : Nat) : Res Loc := (locationT d sz gid).1
+
+/-! ## `bitmap_data` (`Ebdt::data` / `Cbdt::data`) -/
+
+/-- `BitmapContent` variant / `BitmapDataFormat` -/
+inductive Kind where
+  | byteAligned
+  | bitAligned
+  | png
+  | composite
+  deriving DecidableEq, Repr
+
+/-- `BitmapData`: metrics (`small` = `BitmapMetrics::Small`, 5 bytes; else `Big`, 8 bytes) and the content
+slice: `count` elements (bytes, or 4-byte `BdtComponent`s) starting at byte `start` of the table -/
+structure BData where
+  small : Bool
+  metrics : List Nat
+  kind : Kind
+  start : Nat
+  count : Nat
+  deriving DecidableEq, Repr
+
+/-- `usize::div_ceil(8)`: `d = a / 8; r = a % 8; if r > 0 { d + 1 } else { d }` -/
+def divCeil8 (a : Nat) : Nat := if a % 8 > 0 then a / 8 + 1 else a / 8
+
+/-- `cursor.read::<T>()?` -/
+def readR (img : List Nat) (c : Cur) (sz : Nat) : Res (Nat × Cur) :=
+  match c.read img sz with
+  | (none, _) => .err .oob
+  | (some v, c') => .ok (v, c')
+
+/-- `cursor.read_array::<T>(n)?`: the number of elements and the cursor behind them -/
+def readArrR (img : List Nat) (c : Cur) (n elem : Nat) : Res (Nat × Cur) :=
+  match c.readArray img n elem with
+  | (.error e, _) => .err (ofRErr e)
+  | (.ok k, c') => .ok (k, c')
+
+/-- bitmap.rs `read_small_metrics` / `read_big_metrics`: `cursor.read_array::<M>(1)?[0]`, `size_of::<M>() = sz`
+(5 / 8).  The record is the `sz` bytes at the old position. -/
+def readMetrics (img : List Nat) (c : Cur) (sz : Nat) : Res (List Nat × Cur) := do
+  let (k, c') ← readArrR img c 1 sz
+  let m ← index0 ((List.range k).map (fun i => (img.drop (c.pos + sz * i)).take sz))
+  .ok (m, c')
+
+/-- `metrics.height` / `metrics.width` (bytes 0 / 1 of both metrics records) -/
+def mHeight (m : List Nat) : Nat := m.getD 0 0
+def mWidth (m : List Nat) : Nat := m.getD 1 0
+
+/-- `BitmapContent::Data(ByteAligned, read_array::<u8>(pitch * height)?)`,
+`pitch = (width as usize * bit_depth as usize).div_ceil(8)` -/
+def byteAligned (img : List Nat) (off : Nat) (c : Cur) (small : Bool) (m : List Nat) (bitDepth : Nat) : Res BData := do
+  let wb ← usizeMul (mWidth m) bitDepth
+  let n ← usizeMul (divCeil8 wb) (mHeight m)
+  let (k, _) ← readArrR img c n 1
+  .ok { small := small, metrics := m, kind := .byteAligned, start := off + c.pos, count := k }
+
+/-- `BitmapContent::Data(BitAligned, read_array::<u8>((width * height).div_ceil(8))?)`,
+`width = metrics.width as usize * bit_depth as usize` -/
+def bitAligned (img : List Nat) (off : Nat) (c : Cur) (small : Bool) (m : List Nat) (bitDepth : Nat) : Res BData := do
+  let wb ← usizeMul (mWidth m) bitDepth
+  let bits ← usizeMul wb (mHeight m)
+  let (k, _) ← readArrR img c (divCeil8 bits) 1
+  .ok { small := small, metrics := m, kind := .bitAligned, start := off + c.pos, count := k }
+
+/-- `count = read::<u16>()? as usize; read_array::<BdtComponent>(count)?` (4-byte records) -/
+def composite (img : List Nat) (off : Nat) (c : Cur) (small : Bool) (m : List Nat) : Res BData := do
+  let (n, c1) ← readR img c 2
+  let (k, _) ← readArrR img c1 n 4
+  .ok { small := small, metrics := m, kind := .composite, start := off + c1.pos, count := k }
+
+/-- `data_len = read::<u32>()? as usize; read_array::<u8>(data_len)?` -/
+def png (img : List Nat) (off : Nat) (c : Cur) (small : Bool) (m : List Nat) : Res BData := do
+  let (n, c1) ← readR img c 4
+  let (k, _) ← readArrR img c1 n 1
+  .ok { small := small, metrics := m, kind := .png, start := off + c1.pos, count := k }
+
+/-- bitmap.rs `bitmap_data(offset_data, location, is_color)`:
+`data_end = data_offset.checked_add(data_size).ok_or(OutOfBounds)?`,
+`offset_data.slice(data_offset..data_end).ok_or(OutOfBounds)?.cursor()`, then the format match
+(1, 2, 5, 6, 7, 8, 9; 17, 18, 19 only `if is_color`; everything else `MalformedData`). -/
+def bitmapData (d : List Nat) (loc : Loc) (isColor : Bool) : Res BData :=
+  match checkedAdd loc.dataOffset loc.dataSize with
+  | none => .err .oob
+  | some e =>
+    match sliceExcl d loc.dataOffset e with
+    | none => .err .oob
+    | some _ =>
+      let off := loc.dataOffset
+      let img := (d.drop off).take loc.dataSize
+      let c0 := Cur.init
+      let f := loc.format
+      if f = 1 then do
+        let (m, c1) ← readMetrics img c0 5
+        byteAligned img off c1 true m loc.bitDepth
+      else if f = 2 then do
+        let (m, c1) ← readMetrics img c0 5
+        bitAligned img off c1 true m loc.bitDepth
+      else if f = 5 then do
+        let m ← okOr loc.metrics .noMetrics
+        bitAligned img off c0 false m loc.bitDepth
+      else if f = 6 then do
+        let (m, c1) ← readMetrics img c0 8
+        byteAligned img off c1 false m loc.bitDepth
+      else if f = 7 then do
+        let (m, c1) ← readMetrics img c0 8
+        bitAligned img off c1 false m loc.bitDepth
+      else if f = 8 then do
+        let (m, c1) ← readMetrics img c0 5
+        let (_, c2) ← readR img c1 1
+        composite img off c2 true m
+      else if f = 9 then do
+        let (m, c1) ← readMetrics img c0 8
+        composite img off c1 false m
+      else if f = 17 ∧ isColor then do
+        let (m, c1) ← readMetrics img c0 5
+        png img off c1 true m
+      else if f = 18 ∧ isColor then do
+        let (m, c1) ← readMetrics img c0 8
+        png img off c1 false m
+      else if f = 19 ∧ isColor then do
+        let m ← okOr loc.metrics .noMetrics
+        png img off c0 false m
+      else .err .badFormat
+
+/-! ## sbix: `Strike::read`, `Strike::glyph_data`, `GlyphData::read` -/
+
+/-- generated `Strike::read(data, num_glyphs)`: two `advance::<u16>()`,
+`transforms::add(num_glyphs, 1)` (saturating) `.checked_mul(4).ok_or(OutOfBounds)?`, `advance_by`, `finish`.
+Returns `glyph_data_offsets().len()`. -/
+def strikeRead (sd : List Nat) (numGlyphs : Nat) : Except BErr Nat :=
+  let count := satAdd numGlyphs 1
+  match checkedMul count 4 with
+  | none => .error .oob
+  | some bl => if finishAfter sd 4 bl then .ok count else .error .oob
+
+/-- generated `GlyphData::read(data)`: `advance`s of 2 + 2 + 4 bytes,
+`data_byte_len = cursor.remaining_bytes() / 1 * 1`, `advance_by`, `finish` -/
+def glyphDataRead (gd : List Nat) : Except BErr Unit :=
+  let c := Cur.mk 8
+  if (c.advanceBy (c.remainingBytes gd / 1 * 1)).finish gd then .ok () else .error .oob
+
+/-- sbix.rs `Strike::glyph_data(glyph_id)` on a strike with `count` glyph data offsets:
+`start = offsets.get(gid).ok_or(OutOfBounds)?`, `end = offsets.get(gid + 1).ok_or(OutOfBounds)?`,
+`start == end` → `Ok(None)`, `offset_data().slice(start..end).ok_or(OutOfBounds)?`, `GlyphData::read(data)?`.
+`Ok(Some(start, end))`: the glyph data is `sd[start..end]`. -/
+def glyphData (sd : List Nat) (count gid : Nat) : Res (Option (Nat × Nat)) := do
+  let start ← okOr (arrGet sd 4 4 4 count gid) .oob
+  let ix1 ← usizeAdd gid 1
+  let end_ ← okOr (arrGet sd 4 4 4 count ix1) .oob
+  if start = end_ then .ok none
+  else
+    match sliceExcl sd start end_ with
+    | none => .err .oob
+    | some _ =>
+      match glyphDataRead ((sd.drop start).take (end_ - start)) with
+      | .error e => .err e
+      | .ok () => .ok (some (start, end_))
 
 end FontVerif.HandBitmap
